@@ -516,23 +516,47 @@ func (e *PropagationEntry) createCommitMessage(includeNumber bool) (string, erro
 
 // GetEntry returns the entry corresponding to entryID.
 func GetEntry(storer gitstore.Storer, entryID githash.Hash) (Entry, error) {
+	entry, readErr, err := getEntry(storer, entryID)
+	if readErr != nil {
+		return nil, errors.Join(ErrRSLEntryNotFound, readErr)
+	}
+	return entry, err
+}
+
+// getLinkedEntry returns the entry the log itself points at: the tip of the
+// RSL reference or the parent of an entry. Failing to read such a commit is
+// not reported as ErrRSLEntryNotFound, because walkers and writers take that
+// sentinel to mean the log ends here (and would truncate their result or
+// restart the numbering at 1).
+func getLinkedEntry(storer gitstore.Storer, entryID githash.Hash) (Entry, error) {
+	entry, readErr, err := getEntry(storer, entryID)
+	if readErr != nil {
+		return nil, fmt.Errorf("unable to read RSL entry '%s': %w", entryID.String(), readErr)
+	}
+	return entry, err
+}
+
+// getEntry loads and parses the entry corresponding to entryID. A failure to
+// read the commit is returned separately from other errors so that callers
+// can decide whether it means the entry does not exist.
+func getEntry(storer gitstore.Storer, entryID githash.Hash) (Entry, error, error) { //nolint:revive
 	entry, has := cache.getEntry(entryID)
 	if has {
-		return entry, nil
+		return entry, nil, nil
 	}
 
 	commitMessage, err := storer.GetCommitMessage(entryID)
 	if err != nil {
-		return nil, errors.Join(ErrRSLEntryNotFound, err)
+		return nil, err, nil
 	}
 
 	entry, err = parseRSLEntryText(entryID, commitMessage)
 	if err != nil {
-		return nil, err
+		return nil, nil, err
 	}
 
 	cache.setEntry(entryID, entry)
-	return entry, nil
+	return entry, nil, nil
 }
 
 // GetParentForEntry returns the entry's parent RSL entry.
@@ -541,7 +565,7 @@ func GetParentForEntry(storer gitstore.Storer, entry Entry) (Entry, error) {
 	if err == nil && has {
 		// We don't need to check the parent's Number here because it was
 		// checked when this was set in the cache
-		return GetEntry(storer, parentID)
+		return getLinkedEntry(storer, parentID)
 	}
 
 	parentIDs, err := storer.GetCommitParentIDs(entry.GetID())
@@ -558,7 +582,7 @@ func GetParentForEntry(storer gitstore.Storer, entry Entry) (Entry, error) {
 	}
 
 	parentID = parentIDs[0]
-	parentEntry, err := GetEntry(storer, parentID)
+	parentEntry, err := getLinkedEntry(storer, parentID)
 	if err != nil {
 		return nil, err
 	}
@@ -648,7 +672,7 @@ func GetLatestEntry(storer gitstore.Storer) (Entry, error) {
 		return nil, err
 	}
 
-	return GetEntry(storer, commitID)
+	return getLinkedEntry(storer, commitID)
 }
 
 // GetLatestReferenceUpdaterEntry returns the latest reference updater entry in
